@@ -657,6 +657,20 @@ func (s *Server) do(c *Call) (runtime.Object, error) {
 		c.Applied = true
 		return n.DeepCopyObject(), nil
 	case "patch":
+		if cur == nil && c.PatchTyp == types.ApplyPatchType {
+			// server-side apply of an object that does not exist yet creates it
+			n := newObj(c.Res)
+			if err := json.Unmarshal(c.Patch, n); err != nil {
+				return nil, apierrors.NewBadRequest(err.Error())
+			}
+			acc(n).SetName(c.Name)
+			acc(n).SetResourceVersion("")
+			cc := *c
+			cc.Verb, cc.Obj = "create", n
+			ret, err := s.do(&cc)
+			c.Applied = cc.Applied
+			return ret, err
+		}
 		if cur == nil {
 			return nil, apierrors.NewNotFound(gr, c.Name)
 		}
@@ -781,7 +795,7 @@ func applyPatch(res Res, cur runtime.Object, pt types.PatchType, patch []byte) (
 	switch pt {
 	case types.StrategicMergePatchType:
 		out, err = strategicpatch.StrategicMergePatch(orig, patch, newObj(res))
-	case types.MergePatchType:
+	case types.MergePatchType, types.ApplyPatchType: // apply on an existing object is approximated by a merge
 		var po, oo map[string]interface{}
 		dec := func(b []byte, v interface{}) error { // keep 64-bit integers exact
 			d := json.NewDecoder(bytes.NewReader(b))
